@@ -87,7 +87,7 @@ def drive(ctx, driver, root, scen, taskset=None, env=None, timeout=None):
     return recs
 
 
-def join(scen, recs, root_id, cfg):
+def join(scen, recs, root_id, cfg, taskset=None, env=None):
     out = []
     for s, r in zip(scen, recs):
         if r.get("outcome") == "not-run":
@@ -100,7 +100,7 @@ def join(scen, recs, root_id, cfg):
              "gated": bool(s.get("gated")), "order": s.get("order", []),
              "outs": [{"outcome": o["outcome"], "digest": o.get("digest", ""), "n": o.get("n", 1)} for o in r.get("outs", [])],
              "leak": r.get("leak", 0), "outcome": r.get("outcome", "ok"), "feasible": r.get("feasible", True),
-             "cfg": cfg, "workers": r.get("workers", -1)}
+             "cfg": cfg, "workers": r.get("workers", -1), "taskset": taskset, "env": env}
         if r.get("synthetic"):
             j["detail"] = (r.get("exit", "") + " " + r.get("stderr", ""))[-600:]
         errs = [o.get("err", "") for o in r.get("outs", []) if o.get("err")]
@@ -246,13 +246,13 @@ def run_c04(ctx):
         for cpus, gmp in (("0", None), ("0-1", None), ("0-3", None), (None, "1"), (None, "2"), (None, "4")):
             sub = rnd.sample(sc, min(len(sc), 150 if tier == "quick" else 1500))
             env = {"GOMAXPROCS": gmp} if gmp else None
-            out += join(sub, drive(ctx, driver, root, sub, taskset=cpus, env=env), k, "taskset=%s gomaxprocs=%s" % (cpus, gmp))
+            out += join(sub, drive(ctx, driver, root, sub, taskset=cpus, env=env), k, "taskset=%s gomaxprocs=%s" % (cpus, gmp), cpus, env)
         return out
 
     def gate_job(ncpu):
         root = os.path.join(ctx.scratch, "h0", "r")   # same root as shard 0 so R1 also spans gated runs
         sc = gated[ncpu]
-        return join(sc, drive(ctx, driver, root + "g%d" % ncpu, sc, taskset="0-%d" % (ncpu - 1)), 100 + ncpu, "gated taskset=%d" % ncpu)
+        return join(sc, drive(ctx, driver, root + "g%d" % ncpu, sc, taskset="0-%d" % (ncpu - 1)), 100 + ncpu, "gated taskset=%d" % ncpu, "0-%d" % (ncpu - 1), None)
 
     with ThreadPoolExecutor(max_workers=nshard) as ex:
         for out in ex.map(shard_job, range(nshard)):
@@ -362,14 +362,15 @@ def confirm_and_report(ctx, driver, rel, rs):
     for k, r in enumerate(rs):
         scen.append({"id": k + 1, "files": r["files"], "list": r["list"], "vanish": r.get("vanish", []), "gated": r.get("gated", False),
                      "order": r.get("order", []), "reps": 5, "trace": False})
-    again = join(scen, drive(ctx, driver, root, scen), 0, "confirm")
+    ts, env = rs[0].get("taskset"), rs[0].get("env")          # same CPU / GOMAXPROCS setting as the original observation
+    again = join(scen, drive(ctx, driver, root, scen, taskset=ts, env=env), 0, "confirm", ts, env)
     v = judge(ctx, again)
     still = v[rel]
     if not still:
         # not reproduced from scratch: try once more with more repetitions (schedule dependent?)
         for s in scen:
             s["reps"] = 200
-        again = join(scen, drive(ctx, driver, root, scen), 0, "confirm")
+        again = join(scen, drive(ctx, driver, root, scen, taskset=ts, env=env), 0, "confirm", ts, env)
         v = judge(ctx, again)
         still = v[rel]
     if not still:
@@ -377,10 +378,11 @@ def confirm_and_report(ctx, driver, rel, rs):
         ctx.unreproduced = getattr(ctx, "unreproduced", 0) + 1
         return
     r0 = again[0]
+    r0 = again[still[0] - 1] if rel in ("Clean_C18", "Determ_C04") else again[0]
     sig = "%s:%s:%s" % (rel, r0["outcome"] if r0["outcome"] != "ok" else "/".join(sorted({o["outcome"] for o in r0["outs"]})),
                         ",".join(bad_kinds(r0)) or "clean")
     what = "%s fails: list=%s outcome=%s outs=%s %s" % (rel, r0["list"], r0["outcome"], r0["outs"][:2], r0.get("detail", "")[:200])
-    vlib.report(ctx, sig, what, {"property": ctx.pid, "family": "hash", "relation": rel,
+    vlib.report(ctx, sig, what, {"property": ctx.pid, "family": "hash", "relation": rel, "taskset": ts, "env": env,
                                  "scenarios": scen, "observed": again})
 
 
@@ -454,9 +456,9 @@ def run_c18(ctx):
         root = os.path.join(ctx.scratch, "k%d" % k, "r")
         env = {"GOMAXPROCS": gmp} if gmp else None
         sc = scen if k == 0 else [dict(s, trace=False) for s in scen]
-        out = join(sc, drive(ctx, driver, root, sc, taskset=cpus, env=env), k, "taskset=%s gomaxprocs=%s" % (cpus, gmp))
+        out = join(sc, drive(ctx, driver, root, sc, taskset=cpus, env=env), k, "taskset=%s gomaxprocs=%s" % (cpus, gmp), cpus, env)
         if k in (0, 2):
-            out += join(bigscen, drive(ctx, driver, root, bigscen, taskset=cpus, env=env, ), k, "big taskset=%s" % cpus)
+            out += join(bigscen, drive(ctx, driver, root, bigscen, taskset=cpus, env=env, ), k, "big taskset=%s" % cpus, cpus, env)
         return out
 
     with ThreadPoolExecutor(max_workers=len(cfgs)) as ex:
